@@ -44,6 +44,7 @@ def mask_ts(b):
 
 
 COMMON = [({'scale': 3}, ['--scale', '3']), ({'scale': 2.5}, ['-s', '2.5']), ({'border': 0}, ['--border', '0']), ({'border': 2}, ['-b', '2'])]
+FLOATSCALE = [({'scale': 2.0}, None)]       # an integral float (the command line tool's converter turns "2.0" into 2: API routes only)
 DARK = [({'dark': 'red'}, ['--dark', 'red']), ({'dark': '#336699'}, ['--dark=#336699'])]
 LIGHT = [({'light': '#eee'}, ['--light=#eee'])]
 TRANS = [({'light': None}, ['--light', 'transparent']), ({'dark': None}, ['--dark', 'trans'])]
@@ -60,17 +61,17 @@ SVG = [({'xmldecl': False}, ['--no-xmldecl']), ({'svgns': False}, ['--no-namespa
        ({'encoding': 'iso-8859-1'}, ['--svgencoding', 'iso-8859-1']), ({'draw_transparent': True}, ['--draw-transparent']),
        ({'svgclass': None, 'lineclass': None}, ['--no-classes']), ({'desc': '\u20ac uro \u4e66'}, ['--desc', '\u20ac uro \u4e66'])]
 MENU = {
-    'svg': COMMON + DARK + LIGHT + TRANS + MODCOL[:4] + SVG,
+    'svg': COMMON + DARK + LIGHT + TRANS + MODCOL[:4] + SVG + FLOATSCALE,
     'svgz': COMMON[:2] + DARK[:1] + LIGHT + SVG[:4] + [({'compresslevel': 1}, None)],
-    'png': COMMON + DARK + LIGHT + TRANS + MODCOL + [({'dpi': 300}, ['--dpi', '300']), ({'compresslevel': 0}, None), ({'compresslevel': 5}, None)],
-    'eps': COMMON + DARK + LIGHT,
-    'pdf': COMMON + DARK + LIGHT + [({'compresslevel': 0}, None)],
+    'png': COMMON + DARK + LIGHT + TRANS + MODCOL + [({'dpi': 300}, ['--dpi', '300']), ({'compresslevel': 0}, None), ({'compresslevel': 5}, None)] + FLOATSCALE,
+    'eps': COMMON + DARK + LIGHT + FLOATSCALE,
+    'pdf': COMMON + DARK + LIGHT + [({'compresslevel': 0}, None)] + FLOATSCALE,
     'txt': COMMON[2:] + [({'dark': '#'}, ['--dark=#']), ({'light': '.'}, ['--light', '.']), ({'dark': 'X', 'light': 'O'}, ['--dark', 'X', '--light', 'O'])],
     'ans': COMMON[2:],
     'pbm': COMMON,
     'pam': COMMON + DARK + LIGHT + TRANS[:1],
     'ppm': COMMON + DARK + LIGHT + MODCOL[:3],
-    'tex': COMMON + [({'dark': 'blue'}, ['--dark', 'blue']), ({'unit': 'mm'}, ['--unit', 'mm']), ({'dark': 'RoyalBlue'}, ['--dark', 'RoyalBlue'])],
+    'tex': COMMON + [({'dark': 'blue'}, ['--dark', 'blue']), ({'unit': 'mm'}, ['--unit', 'mm']), ({'dark': 'RoyalBlue'}, ['--dark', 'RoyalBlue'])] + FLOATSCALE,
     'xbm': COMMON,
     'xpm': COMMON + DARK + LIGHT + TRANS,
 }
@@ -82,6 +83,7 @@ SYMBOLS = {
     '1M0': ('HELLO WORLD', ['--error', 'M', '--pattern', '0'], dict(error='M', mask=0)),
     'uL': ('12345', ['--micro', '-e', 'L'], dict(micro=True, error='L')),
     'enc': ('12345', ['--encoding', 'utf-8'], dict(encoding='utf-8')),
+    'm3': ('12345', ['--version', 'm3'], dict(version='m3')),
     'encK': ('\u6f22\u5b57', ['--encoding', 'shift_jis', '--error', 'M'], dict(encoding='shift_jis', error='M')),
 }
 CORE_SYMBOLS = ('M2', '1L', '7H')
@@ -430,6 +432,31 @@ def terminal_case(acc):
                                   % (border, compact, rc), case)
 
 
+def seq_terminal_case(acc):
+    """--seq without an output file prints what the symbols' terminal() print, one after the other (also through QRCodeSequence.terminal)"""
+    for content, argv, kw in (SEQ, ('HELLO', ['--seq', '--symbol-count', '1'], dict(symbol_count=1)), ('0123456789' * 9, ['--seq', '-sc', '3', '-e', 'H'], dict(symbol_count=3, error='H'))):
+        seq = segno.make_sequence(content, **kw)
+        for border, bflags in ((None, []), (0, ['--border', '0']), (2, ['-b', '2'])):
+            for compact in (False, True):
+                out = io.StringIO()
+                with contextlib.redirect_stdout(out):
+                    try:
+                        rc = cli.main(argv + bflags + (['--compact'] if compact else []) + [content])
+                    except SystemExit as e:
+                        rc = e.code
+                ref = io.StringIO()
+                for qr in seq:
+                    qr.terminal(out=ref, border=border, compact=compact)
+                via_seq = io.StringIO()
+                seq.terminal(out=via_seq, border=border, compact=compact)
+                ok = rc == 0 and out.getvalue() == ref.getvalue() == via_seq.getvalue()
+                acc.eval(('seqterminal', len(seq), border, compact), nontrivial=True, outcome=ok, state=('seqterminal', len(seq), border, compact))
+                acc.count('terminal_compared')
+                if not ok:
+                    acc.violation('cli-terminal/seq', '%d-symbol sequence: CLI --seq without -o (border=%r, compact=%r, status %r) / QRCodeSequence.terminal '
+                                  'do not print what the symbols\' QRCode.terminal print' % (len(seq), border, compact, rc), ('terminal',))
+
+
 def subproc_case(kind, acc, tmp):
     content, argv, _ = SYMBOLS['7H']
     menu = MENU[kind]
@@ -463,6 +490,7 @@ def run_case(case, acc):
             unknown_case(acc, tmp)
         elif kind == 'terminal':
             terminal_case(acc)
+            seq_terminal_case(acc)
         elif kind == 'sameobject':
             sameobject_case(acc)
         elif kind == 'subproc':
